@@ -414,7 +414,7 @@ def one(ctx: Ctx, case: dict[str, Any], label: str) -> None:
 
 def shard(ctx: Ctx) -> None:
     rng = ctx.rng.__class__(f"C16/{ctx.seed}")
-    n = 30000 if ctx.thorough else 2500
+    n = 90000 if ctx.thorough else 10000
     for i in range(n):
         case = gen_case(rng)
         if ctx.mine(i):
